@@ -160,6 +160,12 @@ def gen_rt(ctx, h1):
             ("easy", ["preset=1", gen_spec(rng, 1000000, "inc")])]
     for api, ks in bigs:
         add(api, ks + bias_key(rng, h1, 600000))
+    # incompressible data with frequent short matches (bt2, normal mode, big dictionary): LZMA2 falls back to uncompressed
+    # chunks while the match finder has read ahead (mf->read_ahead != 0 at the chunk end)
+    for _ in range(3 if quick else 30):
+        add(rng.choice(["raw", "rawbuf", "sbuf"]), ["chain=lzma2", "dict=%d" % rng.choice([65536, 1 << 20]), "mode=2", "mf=%s" % rng.choice(["bt2", "bt2", "bt3"]),
+                    "nice=%d" % rng.choice([8, 16, 32]), "depth=%d" % rng.choice([0, 4]), "pb=%d" % rng.randrange(5),
+                    gen_spec(rng, rng.randrange(250000, 450000), rng.choice(["rnd", "rnd", "inc"]))] + slice_key(rng, 0.3))
     # -- random part ------------------------------------------------------------------------------
     n_random = 260 if quick else 4200
     for _ in range(n_random):
@@ -278,6 +284,11 @@ def gen_trace(ctx, h1, work):
     for _ in range(3 if quick else 25):
         add("lzma2", rng.randrange(150000, 700000 if quick else 1500000), rng.choice(["inc", "mix", "rnd"]),
             force=dict(dict=rng.choice([4096, 8192, 65536]), mode=rng.choice([1, 2]), nice=32, depth=rng.choice([0, 1, 4])))
+    # incompressible data with frequent short matches: uncompressed chunks while mf->read_ahead != 0 (position lag afterwards)
+    for _ in range(3 if quick else 30):
+        add("lzma2", rng.randrange(250000, 450000), rng.choice(["rnd", "rnd", "inc"]),
+            force=dict(dict=rng.choice([65536, 1 << 20]), mode=2, mf=rng.choice(["bt2", "bt2", "bt3"]), nice=rng.choice([8, 16, 32]),
+                       depth=rng.choice([0, 4]), pb=rng.randrange(5), lp=rng.randrange(3), lc=rng.randrange(3)))
     # random
     for _ in range(150 if quick else 2200):
         r = rng.random()
@@ -469,7 +480,7 @@ def run(ctx):
     rt_lines = gen_rt(ctx, h1)
     rt_out, errs = run_par(exe, rt_lines)
     fails = 0
-    for (pi, rc, err, ln) in errs:
+    for (pi, rc, err, ln) in errs[:4]:
         ctx.violation("harness-abort", {"kind": "implementation aborted (sanitizer/assert/crash) during a round trip", "op": ln, "stderr": err}, True)
     for i, (ln, o) in enumerate(zip(rt_lines, rt_out)):
         count_line(ctx, "rt", ln)
@@ -497,7 +508,7 @@ def run(ctx):
         cases = gen_trace(ctx, h1, work)
         tr_lines = [c[0] for c in cases]
         tr_out, errs = run_par(exe, tr_lines)
-        for (pi, rc, err, ln) in errs:
+        for (pi, rc, err, ln) in errs[:4]:
             ctx.violation("harness-abort", {"kind": "implementation aborted (sanitizer/assert/crash) during a traced encode", "op": ln, "stderr": err}, True)
         mlines, mowner = [], []
         for ci, ((ln, models, prefix), o) in enumerate(zip(cases, tr_out)):
@@ -506,7 +517,9 @@ def run(ctx):
             if o is None:
                 continue
             if o.startswith("FAIL"):
-                ctx.violation("roundtrip-traced", {"kind": "real encoder -> real decoder does not reproduce the input", "op": ln, "impl": o}, True)
+                fails += 1
+                if fails <= 5:
+                    ctx.violation("roundtrip-traced", {"kind": "real encoder -> real decoder does not reproduce the input", "op": ln, "impl": o}, True)
             elif o.startswith("ok"):
                 for m in models:
                     mlines.append(m)
